@@ -342,7 +342,7 @@ func TestVerifC10(t *testing.T) {
 	scratch = filepath.Join(scratch, fmt.Sprintf("c10-%d", r.Shard))
 	os.MkdirAll(scratch, 0o755)
 	defer os.RemoveAll(scratch)
-	r.Rule("every header made of <= H atoms from a 13-atom alphabet (folding with spaces/tabs, trailing spaces, empty/998-octet/very long values, repeated fields, 8-bit, UTF-8, mixed-case names) parsed by the endpoint's header parser, crossed with every history in {first attempt, retry, restart, restart+retry}; plus the full product body (6, incl. binary and a >1 MiB file-backed one) x envelope (sender null/IDN/quoted, 1-2 recipients incl. two mailboxes that differ only in letter case, SMTPUTF8, REQUIRETLS, TLS-Required override, original-recipient map) x history; each message goes through the real queue; oracle: bytes of header and body, sender, pending recipients, options, override and map equal on every attempt, spool empty at the end, no spool file ever contains the authentication user name or password. Non-trivial: distinct (message, history) cases with at least one retry or restart")
+	r.Rule("every header made of <= H atoms from a 13-atom alphabet (folding with spaces/tabs, trailing spaces, empty/998-octet/very long values; plus whole headers of 0.5 / 1 / 1.5 MiB, repeated fields, 8-bit, UTF-8, mixed-case names) parsed by the endpoint's header parser, crossed with every history in {first attempt, retry, restart, restart+retry}; plus the full product body (6, incl. binary and a >1 MiB file-backed one) x envelope (sender null/IDN/quoted, 1-2 recipients incl. two mailboxes that differ only in letter case, SMTPUTF8, REQUIRETLS, TLS-Required override, original-recipient map) x history; each message goes through the real queue; oracle: bytes of header and body, sender, pending recipients, options, override and map equal on every attempt, spool empty at the end, no spool file ever contains the authentication user name or password. Non-trivial: distinct (message, history) cases with at least one retry or restart")
 	if rp := r.Replay(); rp != nil {
 		var c c10Case
 		if json.Unmarshal(rp, &c) != nil {
@@ -413,6 +413,18 @@ func TestVerifC10(t *testing.T) {
 		}
 	}
 	rec("", 0)
+	// headers of 0.5, 1 and 1.5 MiB (the endpoint accepts up to max_header_size, 1 MiB by
+	// default, before the pipeline adds its own fields; other sources have no limit)
+	for _, fields := range []int{525, 1050, 1600} {
+		var sb strings.Builder
+		for i := 0; i < fields; i++ {
+			fmt.Fprintf(&sb, "X-Pad-%04d: %s\r\n", i, strings.Repeat("p", 985))
+		}
+		sb.WriteString("Message-Id: <last-field@verif.example>\r\n")
+		for _, h := range hists {
+			do(c10Case{Header: sb.String(), Body: "one-line", Env: envs[5], History: h})
+		}
+	}
 	// bodies x envelopes x histories
 	for _, b := range c10Bodies() {
 		for ei, e := range envs {
